@@ -172,6 +172,8 @@ class PrefixDomain:
     def __init__(self, eng, f, sid, prefix, idx_ids):
         self.eng, self.f, self.sid, self.prefix, self.idx = eng, f, sid, prefix, tuple(sorted(idx_ids))
         self.returns = []
+        self.wrote = set()      # ids of pointer / array parameters this function may store through (on a reachable path)
+        self.param_ids = {p["id"] for p in eng.prog.params(f)}
 
     # state = {key: env}
     def key(self, env):
@@ -347,6 +349,8 @@ class PrefixDomain:
                 if is_exact(idx) and 0 <= idx[0][0] < len(self.prefix):
                     return ex(self.prefix[idx[0][0]])
                 return CHAR
+            if base.get("kind") == "DeclRefExpr" and env.get(("z", base.get("referencedDecl", {}).get("id"))) == ex(1):
+                return ex(0)        # a zero-initialised local array nothing has stored into yet
             self.ev(ks[0], env)
             return CHAR if "char" in qtype(e) and "unsigned" not in qtype(e) else TOP
         if k == "ConditionalOperator":
@@ -379,6 +383,13 @@ class PrefixDomain:
     def ev_lhs(self, e, env):
         """side effects of evaluating an lvalue we do not track (filter_str[j++] = ...)"""
         e = strip(e, casts=True)
+        if e.get("kind") in ("ArraySubscriptExpr", "UnaryOperator"):
+            b = strip(kids(e)[0], casts=True)
+            if b.get("kind") == "DeclRefExpr":
+                bid = b.get("referencedDecl", {}).get("id")
+                if bid in self.param_ids:
+                    self.wrote.add(bid)
+                env.pop(("z", bid), None)       # a local array that was all zero is no longer known to be
         if e.get("kind") == "ArraySubscriptExpr":
             self.ev(kids(e)[1], env)
             self.ev_lhs(kids(e)[0], env)
@@ -401,11 +412,28 @@ class PrefixDomain:
                 key = ("*", a0["referencedDecl"]["id"])
                 if key in env:
                     env[key] = TOP
+        zargs = [(i, strip(a, casts=True)["referencedDecl"]["id"]) for i, a in enumerate(args)
+                 if strip(a, casts=True).get("kind") == "DeclRefExpr" and ("z", strip(a, casts=True)["referencedDecl"]["id"]) in env]
         if name in self.eng.prog.functions:
             spos = [i for i, a in enumerate(args) if strip(a, casts=True).get("kind") == "DeclRefExpr" and
                     strip(a, casts=True)["referencedDecl"]["id"] == self.sid]
             if len(spos) == 1:
-                return self.eng.call_fn(name, spos[0], vals, self.prefix)
+                r = self.eng.call_fn(name, spos[0], vals, self.prefix)
+                wrote = self.eng.wrote.get((name, spos[0], self.prefix), None)
+                ps = self.eng.prog.params(self.eng.prog.fn(name))
+                for i, zid in zargs:
+                    if wrote is None or (i < len(ps) and ps[i]["id"] in wrote):
+                        env.pop(("z", zid), None)
+                return r
+        for i, zid in zargs:
+            n_ = args[i]
+            const = False
+            while n_.get("kind") in ("ImplicitCastExpr", "CStyleCastExpr", "ParenExpr"):
+                if "const" in qtype(n_):
+                    const = True
+                n_ = kids(n_)[0]
+            if not const:
+                env.pop(("z", zid), None)
         return TOP
 
     # ---- Flow interface --------------------------------------------------------------------------
@@ -441,6 +469,9 @@ class PrefixDomain:
             if "[" in qt or "*" in qt or "struct" in qt:
                 if init:
                     self.ev(init[-1], env) if init[-1].get("kind") != "InitListExpr" else None
+                if "[" in qt and "char" in qt and init and init[-1].get("kind") == "InitListExpr" and \
+                        all(self.eng.ce.try_eval(c) == 0 for c in kids(init[-1])):
+                    env[("z", vd["id"])] = ex(1)
             else:
                 env[vd["id"]] = conv(self.ev(init[-1], env), qt) if init else TOP
             envs.append(env)
@@ -517,6 +548,7 @@ class Engine:
         self.prog = prog
         self.ce = ConstEval(prog)
         self.memo = {}
+        self.wrote = {}
         self.runs = 0
 
     def text_param(self, f):
@@ -561,6 +593,7 @@ class Engine:
             for _, env in dom.returns:
                 out = vjoin(out, env.get("$ret", TOP))
             self.memo[key] = out or TOP
+            self.wrote[(fname, spos, prefix)] = set(dom.wrote)
         return self.memo[key] if self.memo[key] is not None else TOP
 
 
